@@ -80,6 +80,15 @@ DirectProduct(s) ==
     IN {[op |-> "q", fn |-> pr[1], root |-> pr[2], sel |-> "INSIDE", rec |-> rc, key |-> key, pats |-> ps,
          isCase |-> TRUE, isRe |-> FALSE, filt |-> "none"] :
             <<pr, rc, key, ps>> \in pairs \X BOOLEAN \X {"name", "k", "eid"} \X patseqs}
+(* cables reached indirectly (from an instance, a pin, a wire, a cable) with an exact pattern AHEAD of an overlapping one *)
+IndirectCableProduct(s) ==
+    LET vals == ValuesIn(s)
+        roots == {<<"I", x>> : x \in IdsI(s)} \cup {<<"Q", x>> : x \in IdsQ(s)} \cup {<<"W", x>> : x \in IdsW(s)}
+                 \cup {<<"C", x>> : x \in IdsC(s)} \cup {<<"D", x>> : x \in IdsD(s)}
+    IN {[op |-> "q", fn |-> "cables", root |-> r, sel |-> sel, rec |-> rc, key |-> "name", pats |-> ps,
+         isCase |-> TRUE, isRe |-> FALSE, filt |-> "none"] :
+            <<r, sel, rc, ps>> \in roots \X {"INSIDE", "OUTSIDE"} \X BOOLEAN
+                                 \X UNION {{<<Exact(v), Prefix(v)>>, <<Exact(v), Exact(v)>>, <<Prefix(v), Exact(v)>>, <<Exact(v), <<AnyN>>>>} : v \in vals}}
 (* the EDIF-policy query family: exact identifier lookups (as spelt, case-swapped, and for identifiers that an *)
 (* element no longer has) from the roots that own a naming scope                                                *)
 EdifDirectProduct(s) ==
